@@ -3,11 +3,13 @@ package nodes
 
 import (
 	"context"
+	"errors"
 	"fmt"
 	"sync"
 	"sync/atomic"
 
 	"github.com/hashicorp/eventlogger"
+	"github.com/hashicorp/go-multierror"
 )
 
 // Behav is what a node does with the event of one Send.
@@ -31,6 +33,7 @@ type Lin struct {
 	Script map[*N]Behav
 	Block  map[*N]chan struct{} // nodes that block until the channel is closed
 	Enter  func(n *N)           // optional callback when a node is entered (C12 re-entry, C03 bookkeeping)
+	ErrKind map[*N]int          // flavour of the error a failing node returns (see ErrFor)
 }
 
 // Call is one recorded node invocation.
@@ -97,13 +100,19 @@ type N struct {
 	CloseErr   error
 	OnReopen   func(n *N)
 	OnClose    func(n *N)
-	errs       sync.Map // send id -> *NodeErr
+	OnType     func(n *N) // Type() is user code too: lets a test yield / delay inside the library's validation
+	errs       sync.Map   // send id -> error
 }
 
 var _ eventlogger.Node = (*N)(nil)
 var _ eventlogger.Closer = (*N)(nil)
 
-func (n *N) Type() eventlogger.NodeType { return n.T }
+func (n *N) Type() eventlogger.NodeType {
+	if n.OnType != nil {
+		n.OnType(n)
+	}
+	return n.T
+}
 
 func (n *N) Reopen() error {
 	n.Reopens.Add(1)
@@ -121,11 +130,42 @@ func (n *N) Close(ctx context.Context) error {
 	return n.CloseErr
 }
 
-// ErrFor returns the error value this node returned (or would return) for a send.
-func (n *N) ErrFor(send int) *NodeErr {
-	v, _ := n.errs.LoadOrStore(send, &NodeErr{Node: n, Send: send, What: "failed"})
-	return v.(*NodeErr)
+// Error flavours: what kind of Go error value a failing node returns.
+const (
+	ErrPlain      = iota // a unique *NodeErr
+	ErrMultiAgg          // a *multierror.Error aggregating three errors
+	ErrMultiNil          // a typed-nil *multierror.Error inside a non-nil error interface
+	ErrJoined            // errors.Join of two errors
+	ErrWrapped           // fmt.Errorf("...: %w", err)
+	NumErrKinds
+)
+
+// ErrFor returns the error value this node returned (or would return) for a send:
+// one value per (node, send), of the requested flavour.
+func (n *N) ErrFor(send int) error { return n.ErrForKind(send, ErrPlain) }
+
+func (n *N) ErrForKind(send, kind int) error {
+	if v, ok := n.errs.Load(send); ok {
+		return v.(errBox).err
+	}
+	base := &NodeErr{Node: n, Send: send, What: "failed"}
+	var e error = base
+	switch kind {
+	case ErrMultiAgg:
+		e = &multierror.Error{Errors: []error{base, &NodeErr{Node: n, Send: send, What: "second"}, &NodeErr{Node: n, Send: send, What: "third"}}}
+	case ErrMultiNil:
+		var me *multierror.Error
+		e = me
+	case ErrJoined:
+		e = errors.Join(base, &NodeErr{Node: n, Send: send, What: "joined"})
+	case ErrWrapped:
+		e = fmt.Errorf("wrapped by node: %w", base)
+	}
+	v, _ := n.errs.LoadOrStore(send, errBox{e})
+	return v.(errBox).err
 }
+
+type errBox struct{ err error }
 
 func (n *N) Process(ctx context.Context, e *eventlogger.Event) (*eventlogger.Event, error) {
 	w := n.W
@@ -171,9 +211,9 @@ func (n *N) Process(ctx context.Context, e *eventlogger.Event) (*eventlogger.Eve
 	case Drop:
 		out = nil
 	case Fail:
-		err = n.ErrFor(c.SendID)
+		err = n.ErrForKind(c.SendID, kindOf(lin, n))
 	case FailEv:
-		err = n.ErrFor(c.SendID)
+		err = n.ErrForKind(c.SendID, kindOf(lin, n))
 		out = e
 	}
 	c.Out, c.Err = out, err
@@ -189,6 +229,63 @@ func (n *N) Process(ctx context.Context, e *eventlogger.Event) (*eventlogger.Eve
 	w.mu.Unlock()
 	return out, err
 }
+
+func kindOf(lin *Lin, n *N) int {
+	if lin == nil || lin.ErrKind == nil {
+		return ErrPlain
+	}
+	return lin.ErrKind[n]
+}
+
+// ---------------------------------------------------------------------------
+// node shapes beyond "pointer to a struct with optional Close"
+
+// WrapPlain wraps a node and only exposes it through Unwrap (no Close of its own).
+type WrapPlain struct{ Inner *N }
+
+func (w *WrapPlain) Process(ctx context.Context, e *eventlogger.Event) (*eventlogger.Event, error) {
+	return w.Inner.Process(ctx, e)
+}
+func (w *WrapPlain) Reopen() error              { return w.Inner.Reopen() }
+func (w *WrapPlain) Type() eventlogger.NodeType { return w.Inner.Type() }
+func (w *WrapPlain) Unwrap() eventlogger.Node   { return closerOnly{w.Inner} }
+
+// WrapCloser wraps a node, exposes it through Unwrap AND has a Close of its own: the broker must
+// close the wrapper (the outermost Closer), not the wrapped node.
+type WrapCloser struct {
+	Inner     *N
+	OwnCloses atomic.Int32
+}
+
+func (w *WrapCloser) Process(ctx context.Context, e *eventlogger.Event) (*eventlogger.Event, error) {
+	return w.Inner.Process(ctx, e)
+}
+func (w *WrapCloser) Reopen() error              { return w.Inner.Reopen() }
+func (w *WrapCloser) Type() eventlogger.NodeType { return w.Inner.Type() }
+func (w *WrapCloser) Unwrap() eventlogger.Node   { return closerOnly{w.Inner} }
+func (w *WrapCloser) Close(ctx context.Context) error {
+	w.OwnCloses.Add(1)
+	if w.Inner.OnClose != nil {
+		w.Inner.OnClose(w.Inner)
+	}
+	return w.Inner.CloseErr
+}
+
+// closerOnly is what Unwrap hands out: the inner node with its Close (counted on the inner N).
+type closerOnly struct{ *N }
+
+// Uncomparable is a node held BY VALUE whose dynamic type cannot be compared with == (slice field).
+type Uncomparable struct {
+	Inner *N
+	Pad   []int
+}
+
+func (u Uncomparable) Process(ctx context.Context, e *eventlogger.Event) (*eventlogger.Event, error) {
+	return u.Inner.Process(ctx, e)
+}
+func (u Uncomparable) Reopen() error                   { return u.Inner.Reopen() }
+func (u Uncomparable) Type() eventlogger.NodeType      { return u.Inner.Type() }
+func (u Uncomparable) Close(ctx context.Context) error { return u.Inner.Close(ctx) }
 
 // Ends reports how a traversal ends at this node under behaviour b:
 // "next" (event handed on), "complete" (filtered / sink success), "warn".
